@@ -266,7 +266,39 @@ def counted_exit(f, L):
                     step_ok = False
         if step_ok and c.pred != 'ne':
             return True
-    return False
+    return countdown_bound(f, L) is not None
+
+
+def countdown_bound(f, L):
+    """`for (k = n; k > 0; --k)` / `while (k--)`-like forms: a header counter that steps by -1 and is compared with 0 at an
+    exit -> its entry value (the trip count), else None"""
+    H = L['header']
+    for (src, dst) in L['exits']:
+        t = src.term
+        if t.op != 'br' or 'f' not in t.d or t.ops[0].k != 'inst':
+            continue
+        c = f.insts[t.ops[0].id]
+        if c.op != 'icmp' or c.pred not in ('sgt', 'ugt', 'ne', 'eq', 'sle'):
+            continue
+        if not (c.ops[1].k == 'ci' and c.ops[1].ival == 0):
+            continue
+        ph = f.inst_of(c.ops[0])
+        if ph is None or ph.op != 'phi' or ph.block is not H:
+            continue
+        stay = t.d['f'] if c.pred in ('eq', 'sle') else t.d['t']
+        if f.bmap[stay] not in L['blocks']:
+            continue
+        inits, ok = [], True
+        for (bb, v) in ph.incoming:
+            if f.bmap[bb] in L['blocks']:
+                a = f.inst_of(v)
+                if a is None or a.op != 'add' or a.ops[0].key() != ('i', ph.id) or a.ops[1].k != 'ci' or a.ops[1].ival != -1:
+                    ok = False
+            else:
+                inits.append(v)
+        if ok and len(inits) == 1:
+            return inits[0]
+    return None
 
 
 FCMP_TXT = {'oeq': '==', 'ueq': '==', 'one': '!=', 'une': '!=', 'ogt': '>', 'ugt': '>', 'oge': '>=', 'uge': '>=',
@@ -625,6 +657,8 @@ def round_rule(rep, mod):
             c = f.insts[t.ops[0].id]
             if c.op == 'icmp' and c.pred in ('slt', 'ult'):
                 bound = c.ops[1]
+    if bound is None:
+        bound = countdown_bound(f, FD)
     # scaling loop: X = X * base
     SC = cnt = None
     for L in f.loops:
